@@ -1,18 +1,18 @@
 SPECIFICATION Spec
 CONSTANTS
   MaxRestarts = 3
-  MaxReq = 2
-  Urls = {"a", "b"}
+  MaxReq = 3
+  Urls = {"a"}
   DefinedChoices <- AllDefined
-  JailChoices = {"no", "long"}
-  LookChoices = {TRUE}
-  Waits = {0}
+  JailChoices = {"no"}
+  LookChoices = {FALSE}
+  Waits = {0, 1, 8}
   ShortTTL = 5
-  Timed = FALSE
-  Restricted = FALSE
+  Timed = TRUE
+  Restricted = TRUE
   ObjVariants = TRUE
   Statuses = {200}
-  KCover = 1
+  KCover = 0
 INVARIANTS
   TablesAgree
   Bounded
@@ -24,6 +24,6 @@ INVARIANTS
   JailPersists
   HitIffStored
   ReportTruthful
-  EmitInv
+  EmitEndInv
 VIEW View
 CHECK_DEADLOCK FALSE
